@@ -33,6 +33,10 @@ func (fr *Frame) atAnchors(st *State, ins ssa.Instruction, after bool, extra map
 			continue
 		}
 		r.usedAts[fr.fname+"|"+ac.Anchor+"|"+ac.Text] = true
+		if ac.Kind == "assert" {
+			fr.requireExpr(st, "assert", fr.oblFunc(), fr.oblName(ac.Anchor+":"+ac.Label(clip(ac.Text, 30))), ac.Expr, extra, ac.Tags, ins.Pos(), ac.Text)
+			continue
+		}
 		v, err := fr.eval(st, ac.Expr, extra)
 		if err != nil {
 			r.note(fmt.Sprintf("%s: at %s: %q: %v", fr.fname, ac.Anchor, ac.Text, err))
@@ -44,6 +48,12 @@ func (fr *Frame) atAnchors(st *State, ins ssa.Instruction, after bool, extra map
 		case "assume":
 			r.assume(st, v.S)
 			r.assumes[fmt.Sprintf("assume at %s %s: %s", fr.fname, ac.Anchor, ac.Text)] = true
+		case "set":
+			if _, ok := r.eng.cs.Ghosts[ac.Name]; !ok {
+				r.evalErrors = append(r.evalErrors, fmt.Sprintf("%s: set of undeclared ghost %s", fr.fname, ac.Name))
+				continue
+			}
+			r.set(st, "g|"+ac.Name, v.S)
 		case "bind":
 			// total binding: a fresh constant equal to the value on paths through the anchor
 			if isScalar(v.K) || v.K == KSpec {
@@ -78,14 +88,9 @@ func (fr *Frame) checkEnsures(st *State, ret *ssa.Return, result Val) {
 		return
 	}
 	extra := fr.resultNames(result)
+	_ = r
 	for i, c := range fr.contract.Ensures {
-		v, err := fr.eval(st, c.Expr, extra)
-		if err != nil {
-			r.note(fmt.Sprintf("%s: ensures %q: %v", fr.fname, c.Text, err))
-			r.evalErrors = append(r.evalErrors, fmt.Sprintf("%s: ensures %q: %v", fr.fname, c.Text, err))
-			continue
-		}
-		r.require(st, "ensures", fr.fname, c.Label(fmt.Sprintf("#%d", i+1))+"@"+fr.anchorName(ret, "return"), v.S, c.Tags, ret.Pos(), c.Text)
+		fr.requireExpr(st, "ensures", fr.fname, c.Label(fmt.Sprintf("#%d", i+1))+"@"+fr.anchorName(ret, "return"), c.Expr, extra, c.Tags, ret.Pos(), c.Text)
 	}
 }
 
@@ -160,6 +165,7 @@ func (fr *Frame) call(st *State, ins ssa.Instruction, c *ssa.CallCommon, pos tok
 				callee, binds = cv.Fn, cv.Bind
 			default:
 				fv := fr.val(st, c.Value)
+				extra["fnval"] = fv
 				if fv.K == KClosure {
 					callee, binds = fv.Fn, fv.Bind
 				} else if fv.Fn != nil {
@@ -234,6 +240,13 @@ func (fr *Frame) applyContract(st *State, ins ssa.Instruction, fc *FuncContract,
 	if callee != nil {
 		cf.fn = callee
 	}
+	if !c.IsInvoke() {
+		if _, isFn := c.Value.(*ssa.Function); !isFn {
+			if _, isB := c.Value.(*ssa.Builtin); !isB {
+				cf.names["fnval"] = fr.val(st, c.Value)
+			}
+		}
+	}
 	bindParam := func(n string, v Val) {
 		if n != "" && n != "_" {
 			cf.names[n] = v
@@ -291,18 +304,12 @@ func (fr *Frame) applyContract(st *State, ins ssa.Instruction, fc *FuncContract,
 	}
 	// requires
 	for i, rq := range fc.Requires {
-		v, err := cf.eval(st, rq.Expr, nil)
-		if err != nil {
-			r.note(fmt.Sprintf("contract %s: requires %q: %v", name, rq.Text, err))
-			r.evalErrors = append(r.evalErrors, fmt.Sprintf("contract %s: requires %q: %v", name, rq.Text, err))
-			continue
-		}
 		lbl := rq.Label(fmt.Sprintf("#%d", i+1))
 		tags := rq.Tags
 		if ins := fr.callAnchor(c, name); ins != "" {
 			lbl = ins + ":" + lbl
 		}
-		r.require(st, "requires@call", fr.oblFunc(), fr.oblName(lbl), v.S, tags, pos, "precondition of "+name+": "+rq.Text)
+		cf.requireExpr(st, "requires@call", fr.oblFunc(), fr.oblName(lbl), rq.Expr, nil, tags, pos, "precondition of "+name+": "+rq.Text)
 	}
 	// special semantics hooks (locks, once, waitgroups...) keyed by flag
 	if fc.Flags["lock"] != nil && len(args) > 0 {
@@ -314,6 +321,16 @@ func (fr *Frame) applyContract(st *State, ins ssa.Instruction, fc *FuncContract,
 	if fc.Flags["blocking"] != nil {
 		fr.blockingCallAt(st, ins, name, fc, c)
 	}
+	for _, which := range fc.Flags["maybe_calls"] {
+		if v, ok := cf.names[which]; ok {
+			fr.maybeCall(st, v, false)
+		}
+	}
+	for _, which := range fc.Flags["calls"] {
+		if v, ok := cf.names[which]; ok {
+			fr.maybeCall(st, v, true)
+		}
+	}
 	// modifies
 	if fc.HasModifies {
 		for _, m := range fc.Modifies {
@@ -323,7 +340,12 @@ func (fr *Frame) applyContract(st *State, ins ssa.Instruction, fc *FuncContract,
 			}
 		}
 	} else if !fc.Extern {
-		fr.havocAll(st)
+		esc := map[string]bool{}
+		escapedCells(args, esc)
+		fr.havocHeapExcept(st, esc)
+		for name := range r.eng.cs.Ghosts {
+			r.havocKey(st, "g|"+name)
+		}
 	}
 	if fc.Flags["allocates"] != nil || !fc.Extern {
 		old := r.get(st, "g|$heap")
@@ -507,15 +529,43 @@ func (r *Run) havocObject(st *State, p Val, depth int) {
 	}
 }
 
-func (fr *Frame) havocHeap(st *State) {
+func (fr *Frame) havocHeap(st *State) { fr.havocHeapExcept(st, nil) }
+
+// havocHeapExcept havocs the heap but keeps the contents of variable cells allocated by
+// the function under verification whose address was not handed to the callee.
+func (fr *Frame) havocHeapExcept(st *State, escaped map[string]bool) {
 	r := fr.r
+	keep := map[string][][2]string{}
+	for _, c := range r.cells {
+		if escaped[c.addr] {
+			continue
+		}
+		keep[c.key] = append(keep[c.key], [2]string{c.addr, sSelect(r.get(st, c.key), c.addr)})
+	}
 	for _, k := range sortedKeys(r.memSort) {
 		switch {
 		case strings.HasPrefix(k, "F|"), strings.HasPrefix(k, "C|"), strings.HasPrefix(k, "E|"), strings.HasPrefix(k, "MD|"), strings.HasPrefix(k, "MV|"), strings.HasPrefix(k, "G|"):
 			r.havocKey(st, k)
+			if ks := keep[k]; len(ks) > 0 {
+				t := st.mem[k]
+				for _, kv := range ks {
+					t = sStore(t, kv[0], kv[1])
+				}
+				r.set(st, k, t)
+			}
 		}
 	}
-	r.heapHavocs = append(r.heapHavocs, st)
+}
+
+func escapedCells(args []Val, out map[string]bool) {
+	for _, a := range args {
+		if a.K == KPtr && a.P != nil && a.P.Kind == PCell {
+			out[a.P.Base] = true
+		}
+		if a.K == KClosure {
+			escapedCells(a.Bind, out)
+		}
+	}
 }
 
 func (fr *Frame) havocAll(st *State) {
@@ -751,12 +801,7 @@ func (fr *Frame) spawn(st *State, in *ssa.Go) {
 			if hasTag(rq.Tags, "nospawn") {
 				continue
 			}
-			v, err := cf.eval(st, rq.Expr, nil)
-			if err != nil {
-				r.note(fmt.Sprintf("spawn %s: requires %q: %v", name, rq.Text, err))
-				continue
-			}
-			r.require(st, "spawn-pre", fr.oblFunc(), fr.oblName(fr.anchorName(in, "go")+":"+name+":"+rq.Label(fmt.Sprintf("#%d", i+1))), v.S, rq.Tags, in.Pos(), "spawn precondition of "+name+": "+rq.Text)
+			cf.requireExpr(st, "spawn-pre", fr.oblFunc(), fr.oblName(fr.anchorName(in, "go")+":"+name+":"+rq.Label(fmt.Sprintf("#%d", i+1))), rq.Expr, nil, rq.Tags, in.Pos(), "spawn precondition of "+name+": "+rq.Text)
 		}
 	}
 	_ = binds
@@ -799,4 +844,220 @@ func (fr *Frame) runDefers(st *State) {
 		m.mem[key] = "false"
 		*st = *m
 	}
+}
+
+// ---------------------------------------------------------------------------
+// Frame obligations: a function with a `modifies` clause changes nothing else
+// in objects that existed at entry.
+
+type frameDecl struct {
+	key   string
+	idx   string
+	whole bool
+}
+
+func (fr *Frame) frameDecls() (decls []frameDecl, skipHeap bool) {
+	r := fr.r
+	entry := fr.entry
+	addObj := func(p Val) {}
+	var addObjRec func(p Val, depth int)
+	addObjRec = func(p Val, depth int) {
+		pt, ok := p.T.Underlying().(*types.Pointer)
+		if !ok || depth > 3 {
+			return
+		}
+		switch u := pt.Elem().Underlying().(type) {
+		case *types.Struct:
+			sk := structKey(p.T)
+			for i := 0; i < u.NumFields(); i++ {
+				fp := r.fieldPtr(p, i)
+				switch fp.K {
+				case KPtr:
+					decls = append(decls, frameDecl{key: "F|" + sk + "|" + u.Field(i).Name(), idx: p.S})
+				case KRef:
+					addObjRec(fp, depth+1)
+				}
+			}
+		case *types.Array:
+			if k, _ := kindOf(u.Elem()); isScalar(k) {
+				decls = append(decls, frameDecl{key: r.elemKey(u.Elem()), idx: p.S})
+			}
+		}
+	}
+	_ = addObj
+	for _, m := range fr.contract.Modifies {
+		e := m.Expr
+		if e.Op == "id" {
+			if _, ok := r.eng.cs.Ghosts[e.Name]; ok {
+				decls = append(decls, frameDecl{key: "g|" + e.Name, whole: true})
+				continue
+			}
+			if e.Name == "everything" || e.Name == "heap" {
+				skipHeap = true
+				continue
+			}
+		}
+		if e.Op == "call" {
+			switch e.Name {
+			case "elems":
+				x, err := fr.eval(entry, e.Args[0], nil)
+				if err == nil && x.K == KSlice && x.T != nil {
+					et := x.T.Underlying().(*types.Slice).Elem()
+					if k, _ := kindOf(et); isScalar(k) {
+						decls = append(decls, frameDecl{key: r.elemKey(et), idx: sApp("s_base", x.S)})
+					}
+				}
+				continue
+			case "fields":
+				x, err := fr.eval(entry, e.Args[0], nil)
+				if err == nil && x.K == KRef && x.T != nil {
+					addObjRec(x, 0)
+				}
+				continue
+			case "mapof":
+				x, err := fr.eval(entry, e.Args[0], nil)
+				if err == nil && x.T != nil {
+					if mt, ok := x.T.Underlying().(*types.Map); ok {
+						if dk, vk, _, _, ok := r.mapKeys(mt); ok {
+							decls = append(decls, frameDecl{key: dk, idx: x.S}, frameDecl{key: vk, idx: x.S})
+						}
+					}
+				}
+				continue
+			}
+		}
+		ev := &evaluator{fr: fr, r: r, st: entry, old: entry, bound: map[string]Val{}, pkg: fr.fn.Pkg}
+		var p Val
+		ok := true
+		func() {
+			defer func() {
+				if x := recover(); x != nil {
+					if _, is := x.(evalErr); is {
+						ok = false
+						return
+					}
+					panic(x)
+				}
+			}()
+			p = ev.place(e)
+		}()
+		if !ok {
+			continue
+		}
+		switch {
+		case p.K == KRef:
+			addObjRec(p, 0)
+		case p.K == KPtr && p.P != nil:
+			switch p.P.Kind {
+			case PField:
+				decls = append(decls, frameDecl{key: "F|" + p.P.Struct + "|" + p.P.Field, idx: p.P.Base})
+			case PCell:
+				decls = append(decls, frameDecl{key: r.cellKey(p.P.Elem), idx: p.P.Base})
+			case PElem:
+				decls = append(decls, frameDecl{key: r.elemKey(p.P.Elem), idx: p.P.Base})
+			case PGlobal:
+				decls = append(decls, frameDecl{key: "G|" + shortPkgDot(p.P.Global.Pkg.Pkg.Path()) + p.P.Global.Name(), whole: true})
+			}
+		case p.K == KPtr && p.S != "":
+			et := p.T.Underlying().(*types.Pointer).Elem()
+			if k, _ := kindOf(et); isScalar(k) {
+				decls = append(decls, frameDecl{key: r.cellKey(et), idx: p.S})
+			}
+		}
+	}
+	return
+}
+
+func (fr *Frame) checkFrame(st *State, ret *ssa.Return) {
+	r := fr.r
+	if fr.contract == nil || !fr.contract.HasModifies {
+		return
+	}
+	decls, skipHeap := fr.frameDecls()
+	entry := fr.entry
+	h0 := r.get(entry, "g|$heap")
+	var tags []string
+	for _, m := range fr.contract.Modifies {
+		tags = append(tags, m.Tags...)
+	}
+	for _, k := range sortedKeys(st.mem) {
+		now := st.mem[k]
+		was := r.get(entry, k)
+		if now == was {
+			continue
+		}
+		if strings.HasPrefix(k, "d|") || strings.HasPrefix(k, "it|") || k == "g|$heap" || k == "g|$panicking" || k == "g|$held" || k == "g|$closed" {
+			continue
+		}
+		if strings.HasPrefix(k, "g|") && r.eng.cs.LocalGhost[k[2:]] {
+			continue
+		}
+		heapKey := !strings.HasPrefix(k, "g|")
+		if heapKey && skipHeap {
+			continue
+		}
+		var idxs []string
+		whole := false
+		for _, d := range decls {
+			if d.key == k {
+				if d.whole {
+					whole = true
+				} else {
+					idxs = append(idxs, d.idx)
+				}
+			}
+		}
+		if whole {
+			continue
+		}
+		var goal string
+		if strings.HasPrefix(k, "G|") || strings.HasPrefix(k, "g|") && !strings.HasPrefix(r.keySort(k), "(Array Int") {
+			goal = sEq(now, was)
+		} else if strings.HasPrefix(k, "g|") {
+			goal = sEq(now, was)
+			if len(idxs) > 0 {
+				goal = ""
+			}
+		}
+		if goal == "" {
+			p := r.facts.Fresh("framep", "Int")
+			conds := []string{fmt.Sprintf("(<= (root %s) %s)", p, h0)}
+			for _, ix := range idxs {
+				conds = append(conds, sNot(sEq(p, ix)))
+			}
+			goal = sImp(sAnd(conds...), sEq(sSelect(now, p), sSelect(was, p)))
+		}
+		r.require(st, "frame", fr.fname, fmt.Sprintf("%s@%s", keyPrefix(k), fr.anchorName(ret, "return")), goal, tags, ret.Pos(),
+			"only the declared locations of "+k+" change in pre-existing objects")
+	}
+}
+
+// maybeCall: the callee may or may not invoke the closure passed as argument (sync.Once.Do).
+func (fr *Frame) maybeCall(st *State, fnv Val, always bool) {
+	r := fr.r
+	if fnv.K != KClosure && fnv.Fn == nil {
+		fr.havocHeap(st)
+		return
+	}
+	callee, binds := fnv.Fn, fnv.Bind
+	if len(callee.Blocks) == 0 || fr.depth >= maxInlineDepth {
+		fr.havocHeap(st)
+		return
+	}
+	run := st.clone()
+	var b string
+	if !always {
+		b = r.facts.Fresh("maybe", "Bool")
+		run.pc = r.facts.Define("pc", "Bool", sAnd(st.pc, b))
+	}
+	sub := r.newFrame(callee, fr)
+	r.inlined[sub.fname] = true
+	out := r.execFunc(sub, run, nil, binds)
+	if always {
+		*st = *out.st
+		return
+	}
+	skip := st.clone()
+	skip.pc = r.facts.Define("pc", "Bool", sAnd(st.pc, sNot(b)))
+	*st = *r.mergeStates([]*State{out.st, skip})
 }
